@@ -14,6 +14,7 @@ A property module (vlib/props/cNN.py) provides:
 import os, sys, json, time, hashlib, fnmatch, subprocess, signal, collections, importlib, traceback, re, random
 
 VERIF = os.path.dirname(os.path.dirname(os.path.abspath(__file__)))
+OUT = os.environ.get("VERIF_OUT") or VERIF        # where evidence/ and replays/ are written (self-tests redirect it)
 REPO = os.environ.get("VERIF_REPO", "/repo")
 PY = "/venv/bin/python" if os.path.exists("/venv/bin/python") else sys.executable
 
@@ -188,7 +189,7 @@ def drive(prop, tier, seed, jobs=None, replay=None):
     mod = load_prop(prop)
     if jobs is None:
         jobs = int(os.environ.get("VERIF_JOBS", "0")) or (getattr(mod, "JOBS", {}).get(tier) or (8 if tier == "quick" else 16))
-    work = os.path.join(VERIF, "work", "%s-%s-%d" % (prop, tier, os.getpid()))
+    work = os.path.join(OUT, "work", "%s-%s-%d" % (prop, tier, os.getpid()))
     os.makedirs(work, exist_ok=True)
     env = dict(os.environ)
     env.update({"PYTHONPATH": VERIF + os.pathsep + os.path.join(VERIF, ".deps"), "PYTHONDONTWRITEBYTECODE": "1",
@@ -247,7 +248,7 @@ def drive(prop, tier, seed, jobs=None, replay=None):
     try:
         import shutil
         shutil.rmtree(work, ignore_errors=True)
-        wd = os.path.join(VERIF, "work")
+        wd = os.path.join(OUT, "work")
         if os.path.isdir(wd) and not os.listdir(wd):
             os.rmdir(wd)
     except Exception:
@@ -282,7 +283,7 @@ def drive(prop, tier, seed, jobs=None, replay=None):
                 h["example"] = v["witnesses"][0]
         else:
             new.append((key, v))
-    rdir = os.path.join(VERIF, "replays", prop)
+    rdir = os.path.join(OUT, "replays", prop)
     os.makedirs(rdir, exist_ok=True)
     if not replay:
         for fn in os.listdir(rdir):
@@ -299,8 +300,8 @@ def drive(prop, tier, seed, jobs=None, replay=None):
     for key, v in new:
         rec = v["record"]
         path = os.path.join("replays", rec["property"], safe_name("%s__%s__%s__%s" % (rec["check"], rec["form"], rec["symptom"], hashlib.sha1(key.encode()).hexdigest()[:8])) + ".json")
-        os.makedirs(os.path.join(VERIF, os.path.dirname(path)), exist_ok=True)
-        with open(os.path.join(VERIF, path), "w") as f:
+        os.makedirs(os.path.join(OUT, os.path.dirname(path)), exist_ok=True)
+        with open(os.path.join(OUT, path), "w") as f:
             json.dump({"record": rec, "count": v["count"], "witnesses": v["witnesses"], "seed": seed, "tier": tier,
                        "tree": tree_info()}, f, indent=1, default=str)
         by_prop[rec["property"]] += 1
@@ -338,8 +339,8 @@ def drive(prop, tier, seed, jobs=None, replay=None):
     if hasattr(mod, "evidence_extra"):
         ev["coverage"].update(mod.evidence_extra(stats))
     if not replay:
-        os.makedirs(os.path.join(VERIF, "evidence"), exist_ok=True)
-        with open(os.path.join(VERIF, "evidence", prop + ".json"), "w") as f:
+        os.makedirs(os.path.join(OUT, "evidence"), exist_ok=True)
+        with open(os.path.join(OUT, "evidence", prop + ".json"), "w") as f:
             json.dump(ev, f, indent=1, default=str)
     print("%s %s seed=%d: %d evaluations, %d distinct non-trivial, outcomes=%s, monitors=%s, wall=%.1fs" % (
         prop, tier, seed, merged.evaluations, len(merged.nontrivial), dict(merged.outcomes), dict(merged.monitors), time.time() - t0))
